@@ -163,8 +163,10 @@ fn diagnose(c: &TbsCase, sig: &SigParams, got: &[u8]) -> Fail {
     // types of RFC 4034 §6.2 item 3 for which hickory has no model: plain RDATA instead of folded?
     if matches!(c.rdatas[0], MRdata::NameOnly { .. } | MRdata::PrefName { .. } | MRdata::TwoNames { .. }) && case_matters {
         let raw: Vec<Vec<u8>> = c.rdatas.iter().map(|r| r.raw()).collect();
-        let alt = tbs_ref::signed_data(&c.owner.labels, CLASS_IN, sig, raw, false).expect("labels in range");
-        if got_sorted == sorted(&alt.rrs) {
+        // (with or without duplicate removal: the raw, case-preserved octets are what is compared)
+        let alt = tbs_ref::signed_data(&c.owner.labels, CLASS_IN, sig, raw.clone(), false).expect("labels in range");
+        let alt_dedup = tbs_ref::signed_data(&c.owner.labels, CLASS_IN, sig, raw, true).expect("labels in range");
+        if got_sorted == sorted(&alt.rrs) || got_sorted == sorted(&alt_dedup.rrs) {
             return Fail::new(
                 "tbs-rfc4034-listed-type-name-not-lowercased",
                 format!(
